@@ -10,6 +10,7 @@
 // from the caller tag). The broker learns which request belongs to which caller from a
 // caller-specific request field (SessionID, DesiredStreamIDAlias, BaseTime.Name, StreamID).
 //
+// cross{n} = a response of another kind bearing caller n's request id.
 // Script (sc.Steps): start{n} | startgrp{ids: tags started concurrently} | startall | cancel{n} | ans{n} (n = 0: the pong of the first
 // keep-alive ping) | dup{n} | spur{seq: id} | ptimeout | sleep{ms}; every op may carry ms = delay
 // before the op. sc.P: n, kinds[n], mode = "sync" (wait for the observable effect of every
@@ -646,6 +647,29 @@ func run(sc *h.Scenario) *h.Rec {
 		case "dup":
 			for k := 0; k < d.dupN; k++ {
 				d.send(st.N, "dup")
+			}
+		case "cross":
+			// the broker answers caller N's request id with the response type of another caller's kind (it mixes up request ids)
+			var ri reqInfo
+			if !d.waitCond(d.wd, func() bool { r, got := d.reqs[st.N]; ri = r; return got }) {
+				rec.Log("Inconclusive", "why", "no request to cross")
+				continue
+			}
+			other := ""
+			for t := 1; t <= d.n; t++ {
+				if d.kind[t] != ri.kind {
+					other = d.kind[t]
+					break
+				}
+			}
+			if other == "" {
+				other = "ping"
+			}
+			rec.Log("BSend", "rid", i32(uint32(ri.rid)), "tag", st.N, "how", "cross")
+			d.bwrite(response(other, ri.rid, st.N, stamp(ri.rid, st.N, "cross")))
+			d.answered[st.N] = true // (the caller must return by itself)
+			if d.sync {
+				d.waitDone(st.N, "crossed")
 			}
 		case "spur":
 			// a response with an id the client never issued; its type is the response type of some caller's kind
